@@ -33,7 +33,7 @@ meta = {
     "id": sid, "property": desc["property"], "what": desc["what"], "needs": desc["needs"],
     "existing_tests": ("pass (%d test binaries)" % len(tests)) if tests and all(' 0 failed' in t for t in tests) else "NOT all passing - see tests_with_change.log",
     "demo": "fails with the change" if any('FAILED' in x or 'failed' in x for x in demo) else "see demo_with_change.log",
-    "caught_by": ("; ".join(caught) if caught else "MISSED") + ((" — not flagged by: " + ", ".join(missed)) if missed and caught else ""),
+    "caught_by": ("; ".join(caught) if caught else ("MISSED" if checks else "not evaluated yet")) + ((" — not flagged by: " + ", ".join(missed)) if missed and caught else ""),
     "ran": {"confirm": "tools/seed_eval.sh: patch applied in scratch worktree /tmp/seed-<cxx> at /repo HEAD: crate tests, then the demo, then VERIF_REPO=<worktree> ./check <ids>",
             "crate_tests_with_change": tests[-6:], "demo_with_change": demo[:4], "checks_against_changed_tree": checks},
 }
